@@ -1,5 +1,5 @@
 """C12 — printed XML and JSON are standard-conformant and mean the same to any parser."""
-from checks import textcomp, rtcomp
+from checks import textcomp, rtcomp, rtxcomp
 
 LEAN_TARGETS = ["LyModel.Props.C12"]
 AUDIT = "Audit/C12.lean"
@@ -12,6 +12,8 @@ TRUSTED = ["Python xml.parsers.expat and json as the independent parsers"]
 def classify(component, what, case):
     if component == "rt":
         return rtcomp.classify(component, what, case)
+    if component == "rtx":
+        return rtxcomp.classify(component, what, case)
     return None
 
 
@@ -19,3 +21,4 @@ def run(cx):
     textcomp.run_text(cx, want=("xml", "json"), law=("independent",))
     textcomp.spec_readers_vs_external(cx, textcomp.gen_strings(cx, 3000, 50000))
     rtcomp.run_rt(cx, laws=("independent",))
+    rtxcomp.run_rtx(cx, laws=("independent",))
